@@ -201,7 +201,7 @@ func cmdReplayRewrites(args []string) error {
 		t := rwText(v.T, s.Exc, s.Important)
 		r, err := rules.NewNetworkRule(t, 1)
 		if err != nil || r.DNSRewrite == nil {
-			return fmt.Errorf("symbol rule %q rejected: %v", t, err)
+			return rejectedErr("symbol rule %q rejected: %v", t, err)
 		}
 		// renderer self-check: the parsed value is what the specification's table says
 		p := projectRewrite(r)
